@@ -249,3 +249,8 @@ func lemmaContConnTrack(flags uint16, zone uint32, ipMin, ipMax net.IP, pmin uin
 	b2, _ = d.MarshalBinary()
 	return
 }
+
+// C04, instance level: conformant bytes (hand-assembled by the contract's requires, not by the library's encoders) go
+// through Parse; the contracts state that parsing succeeds and where every record's fields come from.
+func lemmaParsePortDescReply(b []byte) (util.Message, error) { return Parse(b) }
+func lemmaParseFlowStatsReply(b []byte) (util.Message, error) { return Parse(b) }
